@@ -1,4 +1,4 @@
-(* C07 requests: 700..710. *)
+(* C07 requests: 700..712. *)
 From Coq Require Import List ZArith Bool.
 From PV Require Import lib.Sx lib.Str lib.Result.
 From PV Require Import model.DfxpXml model.DfxpRegion model.DfxpDoc spec.SpecXmlAttr extract.OrCommon.
@@ -26,7 +26,7 @@ Definition of_ev (e : xev) : sx :=
 Definition sx_lay (x : sx) : option lay :=
   match x with
   | SL [] => Some None
-  | SL [SI c; SI b] => Some (Some (c, negb (b =? 0)))
+  | SL [SI c; SI cr; SI b] => Some (Some (c, negb (cr =? 0), negb (b =? 0)))
   | _ => None
   end.
 Definition sx_rnode (x : sx) : option rnode :=
@@ -107,6 +107,16 @@ Definition dispatch (code : Z) (arg : sx) : option sx :=
                  | SL [sa; r; il] => match sx_pairs sa, sx_opt sx_str r, sx_pairs il with
                                       | Some sa, Some r, Some il => of_pairs (span_attributes sa r il)
                                       | _, _, _ => bad end
+                 | _ => bad end)
+  | 711 => Some (match sx_dset arg with
+                 | Some d => let s := legacy_summarize d in
+                             SL [of_list SS (s_ids s); of_list SS (s_style_ids s); of_list SS (s_region_ids s);
+                                 of_list SS (s_style_refs s); of_list SS (s_region_refs s); of_bool (dom_legacy d)]
+                 | None => bad end)
+  | 712 => Some (match arg with
+                 | SL [content; ids; rids] =>
+                     match sx_listof sx_pair content, sx_listof sx_str ids, sx_listof sx_str rids with
+                     | Some c, Some ids, Some rids => of_pairs (legacy_recreate_style c ids rids) | _, _, _ => bad end
                  | _ => bad end)
   | _ => None
   end.
